@@ -5,6 +5,9 @@ import (
 	"os"
 	"strconv"
 	"testing"
+
+	"github.com/lni/dragonboat/v4/internal/vfhelp"
+	"pgregory.net/rapid"
 )
 
 // TestVF_ReplayPlan reruns one saved plan (VF_PLAN=<artefact json>, either a bare
@@ -44,5 +47,32 @@ func TestVF_ReplayPlan(t *testing.T) {
 		if t.Failed() {
 			return
 		}
+	}
+}
+
+// TestVF_C16_ReplayPlan reruns one c16Plan (VF_PLAN=<json>) VF_PLAN_RUNS times.
+func TestVF_C16_ReplayPlan(t *testing.T) {
+	path := os.Getenv("VF_PLAN")
+	if path == "" {
+		t.Skip("VF_PLAN not set")
+	}
+	data, err := os.ReadFile(path)
+	if err != nil {
+		t.Fatal(err)
+	}
+	var p c16Plan
+	if err := json.Unmarshal(data, &p); err != nil {
+		t.Fatal(err)
+	}
+	runs, _ := strconv.Atoi(os.Getenv("VF_PLAN_RUNS"))
+	if runs == 0 {
+		runs = 3
+	}
+	st := vfhelp.NewStats("TestVF_C16_ReplayPlan", "replay")
+	for i := 0; i < runs; i++ {
+		rapid.Check(t, func(rt *rapid.T) {
+			labels, nt, _ := runC16(rt, st, p)
+			t.Logf("run %d: fired=%v labels=%v", i, nt, labels)
+		})
 	}
 }
